@@ -214,6 +214,15 @@ pub fn run(ctx: &mut Ctx, c: &Case) -> (String, String) {
             let hs = ctx.hay.place(&h, c.num("a"), flush_of(c.num("fl")));
             let be = c.str("be").to_string();
             let ops = c.str("ops").to_string();
+            if c.num("rev") == 1 {
+                // memrchr{,2,3}_iter: the Rev adaptor around the same iterators
+                return record(hs, &[], || match ns.len() {
+                    1 => drive(memchr::memrchr_iter(ns[0], hs), &ops, false),
+                    2 => drive(memchr::memrchr2_iter(ns[0], ns[1], hs), &ops, false),
+                    3 => drive(memchr::memrchr3_iter(ns[0], ns[1], ns[2], hs), &ops, false),
+                    _ => "BadCase".to_string(),
+                });
+            }
             record(hs, &[], || iter_op(&be, &ns, hs, &ops))
         }
         // ---- C12: building blocks
